@@ -400,6 +400,19 @@ def gen_rs(ctx):
     lines = []
     n = 30000 if ctx.quick else 300000
     for i in range(n):
+        if i % 5 < 3:
+            # mostly eligible responses: the decisions after the gates (Vary / ETag / 304 / cache) get exercised
+            al = rng.choice(ALLOWED[:7])
+            mi = rng.choice(MIMES[1:3] + MIMES[3:5])
+            et = rng.choice(ETAGS[:2]) if rng.random() < 0.8 else rng.choice(ETAGS)
+            lines.append(rs_line(al, mi, rng.choice([0, 0, 10, 255]), rng.choice([0, 131072, 4]), rng.choice([0, 1, 1]),
+                                 rng.choice([0, 0, 0, 0, 0, 2, 3, 1]),
+                                 rng.choice(AES[:5]) if rng.random() < 0.8 else rng.choice(AES[9:14]),
+                                 gen_inm(rng, et), rng.choice([200] * 12 + [201, 206, 299, 300, 404]), 9,
+                                 rng.choice(CTYPES[:3]), et, rng.choice(VARYS[:3] + VARYS), rng.choice(CCS[:3] + CCS),
+                                 rng.choice("mffff2pt"), rng.choice("tttr") + str(rng.randint(0, 999)),
+                                 rng.choice(LENS[3:])))
+            continue
         al = rng.choice(ALLOWED[:6]) if rng.random() < 0.9 else rng.choice(ALLOWED)
         mi = rng.choice(MIMES[1:3]) if rng.random() < 0.7 else rng.choice(MIMES)
         mn = rng.choice([0, 0, 10, 255, 256, 1000, 1024])
